@@ -38,29 +38,46 @@ def eval_plan(prefix, fams2020, famsd7, workers=4, parallel=4):
         exhaustive=True, assumptions=EVAL_ASSUME)
 
 
+TRACE_RULE = (" Code -> spec: every Validate call on the repository's own test inputs (testdata/%s, with their remote "
+              "documents) and on %d random schemas x 6 instances (Go driver over the whole vocabulary, depth <= 4, seeded by "
+              "VERIF_SEED) is recorded through the verif frame hook; the documents are abstracted with per-batch pools and TLC "
+              "(Trace.tla) accepts the trace only if the verdict of EVERY frame - not just the root - is the L0 verdict for that "
+              "subschema, instance and dynamic scope (the scope is rebuilt from the nesting of the events, never read from the "
+              "log); the official expected result guards L0 itself (disagreement = spec doubt = exit 2).")
+
+
+def with_traces(plan, suite, n):
+    plan["traces"] = [dict(name=suite, mode=suite), dict(name="random", mode="random", n=n)]
+    plan["rule"] += TRACE_RULE % ("draft2020-12" if suite == "suite2020" else "draft7", n)
+    plan["assumptions"] = plan["assumptions"] + ["frame hook placement", "harness abstraction of real documents (checked by the official expectations)"]
+    return plan
+
+
 def plan_C01(tier, seed):
     if tier == "quick":
-        return eval_plan("c01", [("F1", 2), ("F2", 2), ("F3", 2), ("F4", 1), ("F5", 1), ("U1", 1), ("U2", 1)], [])
-    return eval_plan("c01", [("F1", 3), ("F2", 3), ("F3", 3), ("F4", 2), ("F5", 1), ("U1", 1), ("U2", 1)], [],
-                     workers=5, parallel=3)
+        return with_traces(eval_plan("c01", [("F1", 2), ("F2", 2), ("F3", 2), ("F4", 1), ("F5", 1), ("U1", 1), ("U2", 1)], []),
+                           "suite2020", 300)
+    return with_traces(eval_plan("c01", [("F1", 3), ("F2", 3), ("F3", 3), ("F4", 2), ("F5", 1), ("U1", 1), ("U2", 1)], [],
+                                 workers=5, parallel=3), "suite2020", 3000)
 
 
 def plan_C02(tier, seed):
     if tier == "quick":
-        return eval_plan("c02", [], [("G1", 2), ("G2", 2), ("G3", 1), ("G4", 1), ("G5", 1)])
-    return eval_plan("c02", [], [("G1", 3), ("G2", 3), ("G3", 1), ("G4", 1), ("G5", 1)], workers=5, parallel=3)
+        return with_traces(eval_plan("c02", [], [("G1", 2), ("G2", 2), ("G3", 1), ("G4", 1), ("G5", 1)]), "suite7", 300)
+    return with_traces(eval_plan("c02", [], [("G1", 3), ("G2", 3), ("G3", 1), ("G4", 1), ("G5", 1)], workers=5, parallel=3),
+                       "suite7", 3000)
 
 
 def plan_C07(tier, seed):
     if tier == "quick":
-        return eval_plan("c07", [("U1", 1), ("U2", 1)], [])
-    return eval_plan("c07", [("U1", 2), ("U2", 2)], [], workers=8, parallel=2)
+        return with_traces(eval_plan("c07", [("U1", 1), ("U2", 1)], []), "suite2020", 300)
+    return with_traces(eval_plan("c07", [("U1", 2), ("U2", 2)], [], workers=8, parallel=2), "suite2020", 3000)
 
 
 def plan_C06(tier, seed):
     if tier == "quick":
-        return eval_plan("c06", [("DY", 1), ("DY", 2)], [], workers=6, parallel=2)
-    return eval_plan("c06", [("DY", 2), ("DY", 3)], [], workers=8, parallel=2)
+        return with_traces(eval_plan("c06", [("DY", 1), ("DY", 2)], [], workers=6, parallel=2), "suite2020", 100)
+    return with_traces(eval_plan("c06", [("DY", 2), ("DY", 3)], [], workers=8, parallel=2), "suite2020", 500)
 
 
 RES_INV = ["NoPanic", "AtMostOnce", "NeverLoadsKnown", "NoReentry", "RefinesResolve", "Emit"]
